@@ -151,30 +151,50 @@ class View:
                 self.ringing = False
 
 
-class RecRhythm(Rhythm):
-    """Recording proxy between the Bot and the real rhythm object."""
+def _arg(a, k, pos, *names):
+    """The argument of a recorded rhythm call: by position, else by one of its keyword names."""
+    if pos < len(a):
+        return a[pos]
+    for n in names:
+        if n in k:
+            return k[n]
+    return None
+
+
+class RecRhythm:
+    """Recording proxy between the Bot and the real rhythm object.  It is a plain proxy, not a subclass of the
+    abstract `Rhythm`: whatever else the Bot calls on its rhythm (a method added later, say) goes straight to the
+    real object, and the recorded calls are passed on with exactly the arguments they came with."""
 
     def __init__(self, inner, sim):
         self.inner = inner
         self.sim = sim
 
-    def return_to_mainloop(self):
-        self.sim.rec(["r_return"])
-        self.inner.return_to_mainloop()
+    def __getattr__(self, name):
+        return getattr(self.inner, name)
 
-    def wait_for_bell_time(self, current_time, bell, row_number, place, user_controlled, stroke):
+    def return_to_mainloop(self, *a, **k):
+        self.sim.rec(["r_return"])
+        return self.inner.return_to_mainloop(*a, **k)
+
+    def wait_for_bell_time(self, *a, **k):
+        bell, row_number, place = _arg(a, k, 1, "bell"), _arg(a, k, 2, "row_number"), _arg(a, k, 3, "place")
+        user_controlled = _arg(a, k, 4, "user_controlled")
         self.sim.view.on_wait(row_number, place, bell.number, bool(user_controlled))
         try:
-            self.inner.wait_for_bell_time(current_time, bell, row_number, place, user_controlled, stroke)
+            return self.inner.wait_for_bell_time(*a, **k)
         finally:
             self.sim.view.on_wait_end()
 
-    def expect_bell(self, expected_bell, row_number, place, expected_stroke):
+    def expect_bell(self, *a, **k):
+        expected_bell, row_number = _arg(a, k, 0, "expected_bell", "bell"), _arg(a, k, 1, "row_number")
+        place, expected_stroke = _arg(a, k, 2, "place"), _arg(a, k, 3, "expected_stroke", "stroke")
         self.sim.view.on_expect(expected_bell.number, row_number, place)
         self.sim.rec(["r_expect", expected_bell.number, row_number, place, expected_stroke.is_hand()])
-        self.inner.expect_bell(expected_bell, row_number, place, expected_stroke)
+        return self.inner.expect_bell(*a, **k)
 
-    def change_setting(self, key, value, real_time):
+    def change_setting(self, *a, **k):
+        key, value = _arg(a, k, 0, "key"), _arg(a, k, 1, "value")
         shown = value if isinstance(value, (str, bool, int)) or value is None else "<float>"
         if key == "peal_speed":      # canonical form: what `int(value)` makes of it, when it can
             try:
@@ -182,42 +202,49 @@ class RecRhythm(Rhythm):
             except (ValueError, TypeError):
                 pass
         self.sim.rec(["r_setting", key, shown])
-        self.inner.change_setting(key, value, real_time)
+        return self.inner.change_setting(*a, **k)
 
-    def on_bell_ring(self, bell, stroke, real_time):
+    def on_bell_ring(self, *a, **k):
+        bell, stroke = _arg(a, k, 0, "bell"), _arg(a, k, 1, "stroke")
         self.sim.rec(["r_bell", bell.number, stroke.is_hand()])
-        self.inner.on_bell_ring(bell, stroke, real_time)
+        return self.inner.on_bell_ring(*a, **k)
 
-    def initialise_line(self, stage, user_controls_treble, start_time, number_of_user_controlled_bells):
+    def initialise_line(self, *a, **k):
+        stage, user_controls_treble = _arg(a, k, 0, "stage"), _arg(a, k, 1, "user_controls_treble")
+        start_time = _arg(a, k, 2, "start_time")
+        n_user = _arg(a, k, 3, "number_of_user_controlled_bells")
         self.sim.view.on_init()
-        self.sim.rec(["r_init", stage, bool(user_controls_treble), number_of_user_controlled_bells])
+        self.sim.rec(["r_init", stage, bool(user_controls_treble), n_user])
         self.sim.init_start_times.append(start_time)
-        self.inner.initialise_line(stage, user_controls_treble, start_time, number_of_user_controlled_bells)
+        return self.inner.initialise_line(*a, **k)
 
 
 class StubRhythm(Rhythm):
-    """Op-level rhythm: every wait is one fixed sleep, nothing else happens."""
+    """Op-level rhythm: every wait is one fixed sleep, nothing else happens (whatever else is asked of it)."""
 
     def __init__(self, w):
         self.w = w
 
-    def return_to_mainloop(self):
+    def return_to_mainloop(self, *a, **k):
         pass
 
-    def wait_for_bell_time(self, *a):
+    def wait_for_bell_time(self, *a, **k):
         self.sleep(self.w)
 
-    def expect_bell(self, *a):
+    def expect_bell(self, *a, **k):
         pass
 
-    def change_setting(self, *a):
+    def change_setting(self, *a, **k):
         pass
 
-    def on_bell_ring(self, *a):
+    def on_bell_ring(self, *a, **k):
         pass
 
-    def initialise_line(self, *a):
+    def initialise_line(self, *a, **k):
         pass
+
+
+StubRhythm.__abstractmethods__ = frozenset()      # (an abstract method added to `Rhythm` later is a no-op here)
 
 
 class Sim:
@@ -500,9 +527,11 @@ def run(scenario, make_agents=None):
         if rh["kind"] == "stub":
             rhythm = StubRhythm(core.bits_to_float(rh["w"]))
         else:
-            rhythm = wmain.create_rhythm(rh["peal_speed"], core.bits_to_float(rh["inertia"]), rh["max_bells"],
-                                         core.bits_to_float(rh["gap"]), rh["kind"] == "wait",
-                                         core.bits_to_float(rh["initial_inertia"]))
+            from harness import climain
+            rhythm = climain.make_rhythm(peal_speed=rh["peal_speed"], inertia=core.bits_to_float(rh["inertia"]),
+                                         max_bells_in_dataset=rh["max_bells"],
+                                         handstroke_gap=core.bits_to_float(rh["gap"]), use_wait=rh["kind"] == "wait",
+                                         initial_inertia=core.bits_to_float(rh["initial_inertia"]))
         tower = RingingRoomTower(sim.tower_id, sc.get("url", "http://fake-rr"))
         bot = Bot(tower, gen, bot_cfg["up_down_in"], bot_cfg["stop_at_rounds"], bot_cfg["call_comps"],
                   RecRhythm(rhythm, sim), user_name=bot_cfg.get("user_name"),
@@ -618,6 +647,8 @@ def _run_main(sim, sc):
     if g.get("type") == "comp":
         text = implrun.comp_payload(g)
         routes.insert(0, lambda url, params: implrun.FakeResponse(text) if "complib" in url else None)
+    if sc.get("complib"):
+        routes.insert(0, complib_route(sc["complib"]))
     saved_routes = implrun.HTTP.routes
     implrun.HTTP.routes = routes
     real_create, real_tower = wmain.create_rhythm, wmain.RingingRoomTower
